@@ -106,6 +106,9 @@ def load_all(specdir):
                   'sz_cond_calls', 'sz_witness', 'sz_call_map', 'sz_loop_inv', 'sz_loop_havoc', 'sz_params'):
             if k not in u and k in base:
                 u[k] = base[k]
+        for k in list(base):
+            if k.startswith('sz_loop_inv_') and k not in u:
+                u[k] = base[k]
         done.add(u['name'])
     for u in units.values():
         resolve(u)
